@@ -304,7 +304,7 @@ def r_counted(prog, R):
                     return False
                 l2 = strip(e2["e"]["l"])
                 return l2 is not None and l2.get("k") == "mem" and l2["f"] == cf and render(strip(l2["b"])) == base
-            if can_reach_from_entry_avoiding(f, b, i, is_cnt) is None:
+            if can_reach_from_entry_avoiding(f, b, i, lambda e2: is_cnt(e2) and e2["e"]["op"] == "=" and const_val(e2["e"].get("r")) != 0) is None:
                 r.ok(k + " (count set before the fill)", f.loc(el))
                 continue
             # from the store: state P (just stored, may be NULL) / Y (a non-NULL element is in the array)
